@@ -248,7 +248,7 @@ def run(run):
                 both(run, m)
             n += step if n > 24 else 1
     # (iii) seeded random fields for every kind
-    per_kind = run.scale(1200, 16000)
+    per_kind = run.scale(1200, 100000)
     for k in gen.KINDS:
         d, fc, sub = k
         for i in range(per_kind):
